@@ -68,6 +68,10 @@ pub struct Case {
     /// the request carries a Range header field (the response is judged like any other)
     #[serde(default)]
     pub req_range: bool,
+    /// (coding declared via Transfer-Encoding) 1 / 2: a Content-Encoding field that names neither coding (`identity` / `x-custom`)
+    /// is present as well; the transfer coding is still what it is
+    #[serde(default)]
+    pub ce_beside_te: u8,
 }
 
 pub const CONTENT_TYPES: &[&str] = &["", "text/plain", "application/gzip", "application/x-gzip", "Application/GZIP; q=1", "application/octet-stream", "application/zlib", "application/json"];
@@ -225,9 +229,9 @@ non-trivial = payload non-empty and one of {>=2 deflate blocks, >=2 segments, a 
                 2 => any::<u16>().prop_map(Fault::Trunc),
                 2 => (0u8..64).prop_map(Fault::TrailerBit),
             ],
-            (prop::bool::weighted(0.85), 0u8..STATUSES.len() as u8, prop_oneof![2 => Just(0u8), 3 => 1u8..CONTENT_TYPES.len() as u8], prop_oneof![3 => Just(0u8), 1 => Just(1u8), 2 => Just(2u8)], prop::bool::weighted(0.2)),
+            (prop::bool::weighted(0.85), 0u8..STATUSES.len() as u8, prop_oneof![2 => Just(0u8), 3 => 1u8..CONTENT_TYPES.len() as u8], prop_oneof![3 => Just(0u8), 1 => Just(1u8), 2 => Just(2u8)], prop::bool::weighted(0.2), prop_oneof![2 => Just(0u8), 1 => Just(1u8), 1 => Just(2u8)]),
         )
-            .prop_map(|(payload, coding, encoder, gz, via_te, token_style, method, framing, seg, reads, fault, (allow_compression, status, content_type, after_frame, req_range))| Case {
+            .prop_map(|(payload, coding, encoder, gz, via_te, token_style, method, framing, seg, reads, fault, (allow_compression, status, content_type, after_frame, req_range, ce_beside_te))| Case {
                 payload,
                 coding,
                 encoder,
@@ -244,6 +248,7 @@ non-trivial = payload non-empty and one of {>=2 deflate blocks, >=2 segments, a 
                 content_type,
                 after_frame,
                 req_range,
+                ce_beside_te,
             })
             .boxed()
     }
@@ -319,6 +324,10 @@ non-trivial = payload non-empty and one of {>=2 deflate blocks, >=2 segments, a 
             if let Some(t) = &tok {
                 if case.via_te {
                     // two field lines when the token list is split: "Transfer-Encoding: identity" + "Transfer-Encoding: <c>, chunked"
+                    if case.ce_beside_te != 0 && decoded {
+                        headers.push(("Content-Encoding".into(), if case.ce_beside_te == 1 { b"identity".to_vec() } else { b"x-custom".to_vec() }));
+                        ctx.label("content-encoding-naming-neither-coding-beside-the-transfer-coding");
+                    }
                     te_override = Some(match t.split_once('\n') {
                         Some((a, b)) => format!("{a}\r\nTransfer-Encoding: {b}, chunked"),
                         None => format!("{t}, chunked"),
